@@ -431,6 +431,14 @@ class G:
                     self.tag("same-op-right")
                 else:
                     return self.binop(op, self.binop(op, l, rs[2]), rs[3])
+            elif op == "AND" and rs[0] == "interval":
+                # an interval is (low op item) AND (item op high) for this front end: same shape
+                if self.ok("same-op-right"):
+                    self.tag("same-op-right")
+                elif ls[0] != "interval":
+                    return self.binop(op, r, l)
+                else:
+                    r = ("un", "NOT", ("paren", r))
         self.tag("op:" + op)
         return ("op", op, l, r)
 
@@ -640,8 +648,10 @@ class G:
 
     def mentions(self, e, name):
         if isinstance(e, tuple):
-            if e[0] == "id" and e[1] == name:
+            if e and e[0] == "id" and e[1] == name:
                 return True
+            if e and e[0] == "agg":
+                return any(self.mentions(a, name) or self.mentions(r, name) for a, r in e[1])
             return any(self.mentions(x, name) for x in e[1:])
         if isinstance(e, list):
             return any(self.mentions(x, name) for x in e)
@@ -1523,6 +1533,9 @@ class G:
                 return True
             if e[0] == "dot" and e[2] in names and self.mentions_any(e[1], names):
                 return True
+            if e[0] == "agg":
+                # only the elements: a repetition count is not resolved by this front end (it is retyped as a count)
+                return any(self.mentions_any(a, names) for a, _ in e[1])
             if e[0] == "rng":
                 # this front end never resolves the lower index of [i:j] (EXPresolve_op_default skips op2 of a
                 # three-operand operator), so a reference there does not count for its "must refer to SELF" check
@@ -1604,6 +1617,12 @@ class G:
                 if pool and self.p(55):
                     # right operand is itself a binary expression
                     op2 = "and" if op == "andor" and self.p(60) else self.pick(["and", "andor"])
+                    if op2 == op:
+                        # a AND (b AND c): the "same-op-right" shape
+                        if self.ok("same-op-right"):
+                            self.tag("same-op-right")
+                        else:
+                            op2 = "and" if op == "andor" else "andor"
                     self.tag("supertype-" + op2)
                     right = (op2, right, term(depth))
                     if op == "andor" and op2 == "and" and self.ok("super-mixed") and self.p(70):
